@@ -397,6 +397,7 @@ OPERATORS = [
     "member-interface", "member-scalar", "member-input",
     "dir-unknown", "dir-misplaced", "dir-repeated", "dir-unknown-arg", "dir-missing-arg", "dir-wrong-literal",
     "recursive-direct", "recursive-indirect", "recursive-via-type", "recursive-via-enumvalue", "recursive-via-inputfield", "recursive-via-nested-input",
+    "builtin-scalar-ext-fault",
 ]
 DIR_SITES = ["SCHEMA", "SCALAR", "OBJECT", "FIELD_DEFINITION", "IFIELD_DEFINITION", "ARGUMENT_DEFINITION", "DIRARG_DEFINITION", "INTERFACE", "UNION",
              "ENUM", "ENUM_VALUE", "INPUT_OBJECT", "INPUT_FIELD_DEFINITION"]
@@ -497,6 +498,20 @@ def inject(model, operator, site):
         t["n"] = n
 
     op = operator
+    if op == "builtin-scalar-ext-fault":
+        # a faulty directive application that an EXTENSION puts on a built-in scalar (the built-ins are defined implicitly)
+        kind = site % 4
+        name = ["String", "Int", "ID", "Boolean", "Float"][(site // 4) % 5]
+        if kind == 0:
+            dirs = [G.directive("nowhere")]                                                              # unknown directive
+        elif kind == 1:
+            dirs = [G.directive("deprecated")]                                                           # not allowed on SCALAR
+        elif kind == 2:
+            dirs = [G.directive("specifiedBy", [G.arg("url", G.v_str("u"))])] * 2                       # not repeatable
+        else:
+            dirs = [G.directive("specifiedBy", [G.arg("url", G.v_int("42"))])]                          # ill-typed argument
+        defs.append(SG.tdef("scalar", name, True, dirs=dirs))
+        return m
     if op == "reserved-type":
         d = nth([d for d in defs if d["k"] not in ("schema", "directive")])
         rename_type(m, d["name"], "__" + d["name"])
